@@ -896,7 +896,8 @@ impl SerdeObject for Fp {
         if bytes.len() != SIZE {
             return None;
         }
-        Some(Self::from_raw_bytes_unchecked(bytes))
+        let out = Self::from_raw_bytes_unchecked(bytes);
+        is_valid_u64(&out.0.l).then_some(out)
     }
 
     fn to_raw_bytes(&self) -> Vec<u8> {
